@@ -4,7 +4,8 @@ hyperparameter takes the same branch for both spellings of each synonym
 class ('increasing'/1, 'peak'/-1, 'positive'/1, 'convex'/1, 'none'/0)."""
 import ast
 
-from ..model import (AnalysisError, dotted, norm_text, const_value, names_read)
+from ..model import (AnalysisError, dotted, norm_text, const_value, names_read,
+                     orelse_view)
 from ..rules import validate
 from ..rules import spelling
 from ..rules.wiring import FnCtx
@@ -152,10 +153,10 @@ def run(prog, res):
                                                    'model_info'):
       continue
     elifs = set()
+    view = orelse_view(fn.node)
     for node in ast.walk(fn.node):
-      if isinstance(node, ast.If) and len(node.orelse) == 1 and isinstance(
-          node.orelse[0], ast.If):
-        elifs.add(id(node.orelse[0]))
+      if isinstance(node, ast.If) and view.next_arm(node) is not None:
+        elifs.add(id(view.next_arm(node)))
     heads = []
     for node in ast.walk(fn.node):
       if isinstance(node, ast.If) and id(node) not in elifs:
@@ -175,14 +176,10 @@ def run(prog, res):
         fake.lineno = node.elt.lineno
         heads.append(fake)
     for h in heads:
-      tests = []
-      cur = h
-      while True:
-        tests.append(cur.test)
-        if len(cur.orelse) == 1 and isinstance(cur.orelse[0], ast.If):
-          cur = cur.orelse[0]
-        else:
-          break
+      arms, else_body = view.chain(h)
+      if not arms[-1].orelse and validate._always_raises(arms[-1].body):
+        else_body = []      # a guard followed by the rest of the function
+      tests = [a.test for a in arms]
       cands = {}
       for t in tests:
         cands.update(_candidates(t))
@@ -190,7 +187,9 @@ def run(prog, res):
         if _is_canonical(prog, fn, node):
           continue
         # pure rejection chains define the accepted set; not a behaviour
-        if all(validate._always_raises(b) for b in _bodies(h)) and _bodies(h):
+        bodies = [a.body for a in arms if a.body] + (
+            [else_body] if else_body else [])
+        if bodies and all(validate._always_raises(b) for b in bodies):
           continue
         allowed = _validated_spellings(prog, fn, text)
         n += 1
@@ -202,7 +201,8 @@ def run(prog, res):
           if len(sp) < 2:
             continue
           compared += 1
-          sigs = [spelling.chain_signature(h, text, s, fam) for s in sp]
+          sigs = [spelling.chain_signature(h, text, s, fam, arms=arms)
+                  for s in sp]
           if any(x != sigs[0] for x in sigs):
             bad.append((cls, sp, sigs))
         key = '%s|%s@%s' % (fn.qualname, text, norm_text(tests[0])[:40])
@@ -216,18 +216,3 @@ def run(prog, res):
                       bad[0][2] if bad else ''))
   res.extra['raw_synonym_tests'] = n
   res.floor('V3', 4)
-
-
-def _bodies(h):
-  out = []
-  cur = h
-  while True:
-    if cur.body:
-      out.append(cur.body)
-    if len(cur.orelse) == 1 and isinstance(cur.orelse[0], ast.If):
-      cur = cur.orelse[0]
-    else:
-      if cur.orelse:
-        out.append(cur.orelse)
-      break
-  return out
